@@ -1186,7 +1186,7 @@ int main(int argc, char** argv) {
             run.note(fmt("alphabet g=%d n=%d: %zu simple polygons; %zu members with every repeated-vertex position", l.g, l.nmin, oned.size() / 2, alld.size()));
             run_search(FRACTURE, "fracture", fmt("g=%d n=%d (+ every repeated-vertex position) x max_points {5,6,7,8} x 3 precisions, + limits {0..4}", l.g, l.nmin), alld, 16, LIM, l.g, {}, 5);
             if (l.g == 3 && l.nmin == 7) continue;  // writer and slice for g=3 n=7 were already completed in stage 1
-            run_search(WRITER, "writer", fmt("g=%d n=%d (+1 repeated-vertex version each) x write_gds max_points {5,6,7,8,0,4} x 7 configurations x 2 writers", l.g, l.nmin), oned, 64, LIM, l.g, ALLCFG, 10);
+            run_search(WRITER, "writer", fmt("g=%d n=%d (+1 repeated-vertex version each) x write_gds max_points {5,6,7,8,0,4} x %s x 2 writers", l.g, l.nmin, l.g == 4 ? "configurations 0,3,4,5" : "7 configurations"), oned, 64, LIM, l.g, l.g == 4 ? QCFG : ALLCFG, 10);
             run_search(SLICE, "slice", fmt("g=%d n=%d (+1 repeated-vertex version each) x every sorted list of <=3 positions from {-1,0,1/2,..,%d} x 2 axes", l.g, l.nmin, l.g), oned, 2, {}, l.g, {}, 5);
         }
     }
